@@ -162,7 +162,47 @@ func (m *Model) ruleDONE(r *Results) {
 			otherCloses = append(otherCloses, c)
 		}
 	})
+	// (or a deferred method of the feed whose only effect is that guarded close: `defer feed.signalDone()`)
+	var deferHelper ssa.CallInstruction
+	var helperClose ssa.CallInstruction
+	if deferClose == nil {
+		m.eachCall(root, func(c ssa.CallInstruction) {
+			if _, isDefer := c.(*ssa.Defer); !isDefer {
+				return
+			}
+			h := c.Common().StaticCallee()
+			if h == nil || !m.inPkg(h) || len(h.Blocks) == 0 {
+				return
+			}
+			var cl []ssa.CallInstruction
+			others := 0
+			m.eachCall(h, func(c2 ssa.CallInstruction) {
+				if isBuiltinCall(c2, "close") && m.derivesFromField(c2.Common().Args[0], "DoneChan", 0, map[ssa.Value]bool{}) {
+					if _, isDefer := c2.(*ssa.Defer); !isDefer {
+						cl = append(cl, c2)
+						return
+					}
+				}
+				others++
+			})
+			if len(cl) == 1 && others == 0 {
+				deferHelper, helperClose = c, cl[0]
+			}
+		})
+	}
 	switch {
+	case deferClose == nil && deferHelper != nil && len(otherCloses) == 0:
+		hconds := controllingConds(helperClose.Parent(), helperClose.Block())
+		okGuard := len(hconds) == 1 && len(controllingConds(root, deferHelper.Block())) == 0
+		if okGuard {
+			cd := condOf(hconds[0].If)
+			_, isEq := cd.equalEdge()
+			okGuard = isEq && (isNilConst(cd.X) || isNilConst(cd.Y))
+		}
+		c := newCut()
+		c.cutBlock(deferHelper.Block())
+		beforeLoop := !entryReach(root, c)[loopEntry.Block().Index]
+		r.check(okGuard && beforeLoop, rule, name+" / done channel closed by defer", m.instrPos(deferHelper), "a deferred helper whose only effect is the close guarded by 'channel non-nil' is registered unconditionally before the loop", "the deferred helper that closes the done channel is registered conditionally, or closes it under more than 'channel non-nil'")
 	case deferClose == nil:
 		pos := m.pos(root.Pos())
 		if len(otherCloses) > 0 {
@@ -293,6 +333,9 @@ func (m *Model) ruleDONE(r *Results) {
 		m.eachCall(f, func(c ssa.CallInstruction) {
 			if f == fn || f == root || !isBuiltinCall(c, "close") {
 				return
+			}
+			if deferHelper != nil && deferHelper.Common().StaticCallee() == f {
+				return // the feed loop's own deferred closer, judged in (a)
 			}
 			closesDone := m.derivesFromField(c.Common().Args[0], "DoneChan", 0, map[ssa.Value]bool{})
 			goroutineBody := f.Parent() != nil
